@@ -343,11 +343,11 @@ def run(chk, P):
     r08_3(chk, P, E)
     chk.floor('R08.3', 3)
     r08_5(chk, P, E)
-    chk.floor('R08.5', 3)
+    chk.floor('R08.5', 2)
     r08_8(chk, P)
     chk.floor('R08.8', 1)
     r08_9(chk, P)
-    chk.floor('R08.9', 2)
+    chk.floor('R08.9', 1)
     # R08.4a: the conversion of a target uses the set-up of the link it selected (shared implementation with C09 R09.4/R09.1)
     from rules import c09
 
